@@ -5,6 +5,7 @@ from collections.abc import Sequence
 from typing import TYPE_CHECKING, Any, Literal, Optional
 
 import numpy as np
+import snowflake.connector.errors
 from duckdb import DuckDBPyConnection
 
 from fakesnow.conn import FakeSnowflakeConnection
@@ -61,6 +62,10 @@ def write_pandas(
     table_type: Literal["", "temp", "temporary", "transient"] = "",
     **kwargs: Any,
 ) -> WritePandasResult:
+    if conn.is_closed():
+        # the dataframe is inserted through the duckdb connection directly, so guard like cursor.execute does
+        raise snowflake.connector.errors.DatabaseError(msg="Connection is closed", errno=250002, sqlstate="08003")
+
     name = table_name
     if schema:
         name = f"{schema}.{name}"
